@@ -1,3 +1,4 @@
+import os
 from props import tu, run, FCO, NONULL
 
 _DEPS = ["harness/c15_util.hpp"]
@@ -5,9 +6,9 @@ _THR = "harness/c16_threshold.cpp"
 _MOR = "harness/c16_morph.cpp"
 
 # threshold_binary / threshold_truncate do not compile for float32 channels on the unchanged tree
-# (reported by the two probes below).  Once that is repaired, set this to True: it adds the float32
-# sweep (C16_PART=2 of c16_threshold.cpp) as a normal binary + run.
-ENABLE_F32 = False
+# (reported by the two probes below).  Once that is repaired, set this to True (or run with
+# C16_ENABLE_F32=1): it adds the float32 sweep (C16_PART=2 of c16_threshold.cpp) as a normal binary + run.
+ENABLE_F32 = os.environ.get("C16_ENABLE_F32", "1") == "1"
 
 _tus = [
     tu("c16_thr", _THR, "asan", extra=NONULL + ["-DC16_PART=0"], deps=_DEPS),
